@@ -19,6 +19,8 @@ type CutSpec struct {
 	Start  FP // nil: function entry
 	// StartAfter: begin right after this instruction instead (overrides Start).
 	StartAfter ssa.Instruction
+	// StartEdges: begin at the far end of these specific CFG edges.
+	StartEdges []EdgeRef
 	Cut    FP
 	Target func(in ssa.Instruction, res resolver) bool
 	// Barrier instructions end a path (e.g. the target is only of interest
@@ -37,6 +39,31 @@ type CutSpec struct {
 	EventInstr func(in ssa.Instruction, res resolver) bool
 	EventEdge  func(phi *ssa.Phi, incoming ssa.Value) bool
 	MaxEvents  int
+	// Assume: facts (nil/nonnil/true/false about SSA values) taken to hold
+	// at the start of the search; they are pinned like edge facts.
+	Assume []Fact
+}
+
+// curPins exposes the pinned facts of the state being examined to Target
+// functions (a returned value pinned non-nil is not a success return).
+var curPins string
+
+func pinnedAs(v ssa.Value, op string) bool {
+	if curPins == "" || v == nil {
+		return false
+	}
+	if _, isC := v.(*ssa.Const); isC {
+		return false
+	}
+	return strings.Contains(";"+curPins+";", ";"+v.Name()+"="+op+";")
+}
+
+// EdgeRef names the edge from block B to its successor number Succ; Pins
+// carries facts already known to hold when the edge is taken.
+type EdgeRef struct {
+	B     *ssa.BasicBlock
+	Succ  int
+	Known []Fact
 }
 
 type cutState struct {
@@ -57,11 +84,76 @@ type cutState struct {
 func pinsOf(fs []Fact) []string {
 	var out []string
 	for _, f := range fs {
-		if p, ok := f.X.(*ssa.Parameter); ok && (f.Op == "nil" || f.Op == "nonnil") {
-			out = append(out, p.Name()+"="+f.Op)
+		if pinnable(f) {
+			out = append(out, f.X.Name()+"="+f.Op)
 		}
 	}
 	return out
+}
+
+// pinnableVals is set per search: SSA values (besides parameters) whose
+// nil-ness / truth is tested by at least two different branches of the
+// function. A fact about such a value stays true along a path until the
+// instruction defining the value executes again (see dropPins).
+var pinnableVals map[ssa.Value]bool
+
+func pinnable(f Fact) bool {
+	switch f.Op {
+	case "nil", "nonnil", "true", "false":
+	default:
+		return false
+	}
+	if _, ok := f.X.(*ssa.Parameter); ok {
+		return f.Op == "nil" || f.Op == "nonnil"
+	}
+	return pinnableVals[f.X]
+}
+
+func testedTwice(fn *ssa.Function) map[ssa.Value]bool {
+	cnt := map[ssa.Value]int{}
+	for _, b := range fn.Blocks {
+		if ifi, ok := b.Instrs[len(b.Instrs)-1].(*ssa.If); ok {
+			for _, f := range condFacts(ifi.Cond, true, idRes) {
+				switch f.Op {
+				case "nil", "nonnil", "true", "false":
+					if _, isC := f.X.(*ssa.Const); !isC {
+						if _, isPhi := f.X.(*ssa.Phi); !isPhi { // phis are handled by the environment
+							cnt[f.X]++
+						}
+					}
+				}
+			}
+		}
+	}
+	out := map[ssa.Value]bool{}
+	for v, n := range cnt {
+		if n >= 2 {
+			out[v] = true
+		}
+	}
+	return out
+}
+
+// dropPins forgets facts about values (re)defined in block b.
+func dropPins(pins string, b *ssa.BasicBlock) string {
+	if pins == "" {
+		return pins
+	}
+	parts := strings.Split(pins, ";")
+	var keep []string
+	for _, p := range parts {
+		name := p[:strings.Index(p, "=")]
+		redefined := false
+		for _, in := range b.Instrs {
+			if v, ok := in.(ssa.Value); ok && v.Name() == name {
+				redefined = true // parameters are not instructions and never match
+			}
+		}
+		if !redefined {
+			keep = append(keep, p)
+		}
+	}
+	return strings.Join(keep, ";")
 }
 
 func addPins(old string, add []string) string {
@@ -85,8 +177,8 @@ func pinContradicts(pins string, fs []Fact) bool {
 		return false
 	}
 	for _, f := range fs {
-		if p, ok := f.X.(*ssa.Parameter); ok && (f.Op == "nil" || f.Op == "nonnil") {
-			if strings.Contains(";"+pins+";", ";"+p.Name()+"="+negOp[f.Op]+";") {
+		if pinnable(f) {
+			if strings.Contains(";"+pins+";", ";"+f.X.Name()+"="+negOp[f.Op]+";") {
 				return true
 			}
 		}
@@ -265,6 +357,11 @@ func RunCut(sp *CutSpec) CutResult {
 		}
 	}
 	tr := trackedPhis(fn, sp.Track)
+	pinnableVals = testedTwice(fn)
+	for _, f := range sp.Assume {
+		pinnableVals[f.X] = true
+	}
+	startPins := addPins("", pinsOf(sp.Assume))
 	seen := map[string]bool{}
 	var queue []*cutState
 	push := func(st *cutState) {
@@ -279,8 +376,18 @@ func RunCut(sp *CutSpec) CutResult {
 		sb := sp.StartAfter.Block()
 		for i, in := range sb.Instrs {
 			if in == sp.StartAfter {
-				queue = append(queue, &cutState{b: sb, from: i + 1, env: "start"})
+				queue = append(queue, &cutState{b: sb, from: i + 1, env: "start", pins: startPins})
 			}
+		}
+	} else if len(sp.StartEdges) > 0 {
+		for _, e := range sp.StartEdges {
+			var fs []Fact
+			if ifi, ok := e.B.Instrs[len(e.B.Instrs)-1].(*ssa.If); ok {
+				fs = condFacts(ifi.Cond, e.Succ == 0, idRes)
+			}
+			em := enter(tr, nil, e.B, e.B.Succs[e.Succ], e.Succ)
+			r.Starts++
+			push(&cutState{b: e.B.Succs[e.Succ], envMap: em, env: envKey(em), parent: &cutState{b: e.B}, pins: dropPins(addPins(addPins("", pinsOf(e.Known)), pinsOf(fs)), e.B.Succs[e.Succ])})
 		}
 	} else if sp.Start == nil {
 		push(&cutState{b: fn.Blocks[0]})
@@ -317,6 +424,7 @@ func RunCut(sp *CutSpec) CutResult {
 			return r
 		}
 		for _, in := range st.b.Instrs[st.from:] {
+			curPins = st.pins
 			if sp.Target != nil && sp.Target(in, st.res) {
 				return violate(in)
 			}
@@ -363,7 +471,7 @@ func RunCut(sp *CutSpec) CutResult {
 				}
 			}
 			em := enter(tr, st.envMap, st.b, succ, si)
-			push(&cutState{b: succ, envMap: em, env: envKey(em), parent: st, pins: pins, events: e2})
+			push(&cutState{b: succ, envMap: em, env: envKey(em), parent: st, pins: dropPins(pins, succ), events: e2})
 			return nil
 		}
 		last := st.b.Instrs[len(st.b.Instrs)-1]
@@ -469,7 +577,7 @@ func SuccessReturn(idx int, guard FP) func(ssa.Instruction, resolver) bool {
 		if isNilConst(v) {
 			return true
 		}
-		if definitelyNonNil(v) {
+		if definitelyNonNil(v) || pinnedAs(v, "nonnil") {
 			return false
 		}
 		if guard != nil && guard(Fact{Op: "nil", X: v}) {
